@@ -109,7 +109,7 @@ def rule_cli_commands(ctx, r):
 
 
 def _option(idx, fn, flag):
-    for d in fn.node.decorator_list:
+    for d in idx.expanded_decorators(fn):
         if isinstance(d, ast.Call) and idx.canon(d.func, fn.module) == "click.option":
             names = [a.value for a in d.args if isinstance(a, ast.Constant) and isinstance(a.value, str)]
             if any(flag in n for n in names):
